@@ -6,7 +6,8 @@
 // (which TLC has shown to be the described object list, specs/Encodings.tla).  The file is read with the
 // real osmium::io::Reader - once from the file system (file descriptor path) and once from a memory
 // buffer - and every object is compared field by field with the expected list; step k = object k,
-// step -2 = header (bounding boxes / multiple-object-versions flag when the case states them).
+// step -2 = header (bounding boxes / multiple-object-versions flag when the case states them).  o5m cases may ask the
+// Reader for a subset of the object types ("mask"); the expected list then is the spec's selection.
 #include "common/vh.hpp"
 
 #include <osmium/io/any_input.hpp>
@@ -70,10 +71,18 @@ struct ReadResult {
     std::size_t other_items = 0;
 };
 
-static ReadResult read_all(const osmium::io::File& file) {
+static osmium::osm_entity_bits::type bits_of(const std::string& mask) {
+    osmium::osm_entity_bits::type b = osmium::osm_entity_bits::nothing;
+    for (const char ch : mask) {
+        b |= (ch == 'n') ? osmium::osm_entity_bits::node : (ch == 'w') ? osmium::osm_entity_bits::way : osmium::osm_entity_bits::relation;
+    }
+    return b;
+}
+
+static ReadResult read_all(const osmium::io::File& file, const std::string& mask) {
     ReadResult r;
     try {
-        osmium::io::Reader reader{file};
+        osmium::io::Reader reader{file, mask == "nwr" ? osmium::osm_entity_bits::all : bits_of(mask)};
         const osmium::io::Header header = reader.header();
         r.multi = header.has_multiple_object_versions();
         for (const auto& b : header.boxes()) {
@@ -144,8 +153,9 @@ static void run_case(const json& c) {
     const std::string path = c["file"].get<std::string>();
     const std::string fmt = c["fmt"].get<std::string>();
     const bool dump = c.value("dump", false);
+    const std::string mask = c.value("mask", std::string{"nwr"});      // the object types the reader asks for
     {
-        const ReadResult r = read_all(osmium::io::File{path, fmt});
+        const ReadResult r = read_all(osmium::io::File{path, fmt}, mask);
         if (dump) {
             json d;
             d["dump"] = r.objs;
@@ -159,7 +169,7 @@ static void run_case(const json& c) {
     }
     if (c.value("buffer", true)) {
         const std::string data = slurp(path);
-        const ReadResult r = read_all(osmium::io::File{data.data(), data.size(), fmt});
+        const ReadResult r = read_all(osmium::io::File{data.data(), data.size(), fmt}, mask);
         compare(c, r, "buffer");
     }
 }
